@@ -61,6 +61,23 @@ def _behind_unset(body, bb, field):
     return bool(acc) and bb not in g.reach((0,), cut=acc)
 
 
+def _behind_set(body, bb, field):
+    """is block `bb` of `body` reachable only through a branch on which `<x>.field` is true / non-empty / Some?"""
+    from rules import FieldBoolGuard, FieldOptGuard
+    prep(body)
+    g = cfg_of(body)
+    last = field.split(".")[-1]
+    acc = set()
+    acc |= FieldBoolGuard(last, want=True).edges(body)[1]
+    acc |= FieldOptGuard(last, ("Some",)).edges(body)[1]
+    reads = Taint(body).closure({d for d, r, p in field_reads(body, last)})
+    acc |= CallGuard(["alloc::vec::Vec::is_empty", "core::option::Option::is_none"], ("false",), "set",
+                     arg_pred=lambda b_, blk, t: op_local(t["args"][0]) in reads).edges(body)[1]
+    acc |= CallGuard(["core::option::Option::is_some"], ("true",), "set",
+                     arg_pred=lambda b_, blk, t: op_local(t["args"][0]) in reads).edges(body)[1]
+    return bool(acc) and bb not in g.reach((0,), cut=acc)
+
+
 def run(R):
     F = R.F
     bi, bu, bp = R.body("C20.writers", BUILD), R.body("C20.writers", UPG), R.body("C20.writers", PEERS)
@@ -96,6 +113,23 @@ def run(R):
            {"install": mi["order"], "upgrade": mu["order"]})
     if n < 15:
         R.viol("C20.flags", "instance-floor", "only %d flags compared (floor 15)" % n)
+    # polarity: a conditional flag is written on the branch where its option is set (true / Some / non-empty), never on the other one
+    npol, okpol, rows = 0, True, []
+    for nm, m, body in (("install", mi, bi), ("upgrade", mu, bu), ("peers", mp, bp)):
+        for f, xs in m["flags"].items():
+            for x in xs:
+                if not x["conditional"] or not x["guard_fields"] or f in SUBCMD_FLAGS:
+                    continue        # the evm-custom options sit behind a match on the network variant (C20.custom / C20.position)
+                npol += 1
+                own = [gf for gf in sorted(x["guard_fields"]) if _behind_set(body, x["bb"], gf)]
+                rows.append((nm, f, sorted(x["guard_fields"]), own))
+                if not own:
+                    okpol = False
+                    R.viol("C20.polarity", "flag-on-unset:%s!%s" % (f, nm), "%s is written by %s on a branch where none of its options (%s) is known to be set" % (
+                        f, body.npath.split("::")[-1], ", ".join(sorted(x["guard_fields"]))), body, x["line"])
+    R.inst("C20.polarity", "K10 polarity", "each conditional flag is emitted behind the set side (true / Some / non-empty) of one of its guarding options", npol, okpol, {"rows": rows})
+    if npol < 24:
+        R.viol("C20.polarity", "instance-floor", "only %d conditional flag emissions examined (floor 24)" % npol)
     for nm, b in (("install", bi), ("upgrade", bu)):
         R.must_call("C20.peers." + nm, b.path, [PEERS], "%s builder emits the peers arguments through push_arguments_from_peers_args" % nm)
     pi = [x for b in (bi,) for x in b.blocks if x["term"]["k"] == "call" and callee_matches(x["term"], [PEERS])]
